@@ -310,6 +310,21 @@ def tag (dbg : Bool) (n : Node) : String := if dbg then s!"@{n.pos.1}-{n.pos.2}"
 def addCtx (ctx flag : String) : String :=
   if (ctx.splitOn flag).length > 1 then ctx else ctx ++ flag
 
+/-- a backslash-newline outside single quotes whose backslash is not itself escaped (states: 0 plain,
+    1 single-quoted, 2 double-quoted) -/
+def realCont : Nat → Str → Bool
+  | _, [] => false
+  | 1, c :: rest => if c == '\'' then realCont 0 rest else realCont 1 rest
+  | 2, c :: rest =>
+    if c == '"' then realCont 0 rest
+    else if c == '\\' then (match rest with | [] => false | d :: rest' => d == '\n' || realCont 2 rest')
+    else realCont 2 rest
+  | _, c :: rest =>
+    if c == '\\' then (match rest with | [] => false | d :: rest' => d == '\n' || realCont 0 rest')
+    else if c == '\'' then realCont 1 rest
+    else if c == '"' then realCont 2 rest
+    else realCont 0 rest
+
 mutual
 /-- C04 on one tree.  `ctx` marks contexts in which bashlex is known to mis-place spans and is
     appended to every signature raised there:
@@ -319,7 +334,10 @@ mutual
     Inside a backquote substitution the two backquotes delimit words like blanks do. -/
 def textOKN (dbg : Bool) (s : Str) (ctx : String) : Node → List Viol
   | n@(.word p _ ps) | n@(.assignment p _ ps) =>
-    let ctx' := if hasContinuation (Str.slice s p.1 p.2) then addCtx ctx "+cont" else ctx
+    -- (a continuation in the sense of the shell: `\\\\` + newline is an escaped backslash and a newline; the flat
+    --  scan does not follow the quoting context of a substitution, so with substitution parts any pair counts)
+    let t0 := Str.slice s p.1 p.2
+    let ctx' := if realCont 0 t0 || (hasContinuation t0 && ps.any isSubst) then addCtx ctx "+cont" else ctx
     -- a raw newline inside the word: only the first line of a substitution body is parsed
     let ctxp := if (stripContinuations (Str.slice s p.1 p.2)).contains '\n' then addCtx ctx' "+nlword" else ctx'
     let sub := textOKL dbg s ctxp ps
